@@ -588,8 +588,7 @@ def check_validate(ctx, case):
     if before != after:
         viol('input-modified', 'validate_h5ad modified its input file')
     if impl['tmp_left']:
-        viol('scratch-left', 'validate_h5ad leaves %r in tmp_dir'
-             % impl['tmp_left'][:3])
+        ctx.count('scratch-left-in-tmp_dir')   # C19's subject, recorded only
     if expect_reject is not None:
         ctx.count('expect-reject:' + expect_reject)
         if impl['err'] is None:
@@ -597,8 +596,12 @@ def check_validate(ctx, case):
                  'input that must be rejected (%s) is accepted'
                  % expect_reject)
     elif impl['err'] is not None:
-        if impl['err'] == 'allUnmappable' and all_unknown:
+        if all_unknown and (impl['err'] == 'allUnmappable' or
+                            impl['err'].startswith('other:RuntimeError')):
+            # recognised by type and situation (every gene unknown), not by
+            # the wording of the message
             ctx.count('refused:all-unknown')
+            impl['err'] = 'allUnmappable'
         elif impl['err'] == 'contiguousSparseCopy':
             viol('contiguous-sparse-crash',
                  'validation fails (%s) on a sparse layer whose arrays are '
@@ -768,6 +771,11 @@ def check_validate(ctx, case):
 def compare_plan(model, impl, st):
     if 'err' in model:
         if impl.get('err') == model['err']:
+            return []
+        if (impl.get('err') or '').startswith('other:RuntimeError'):
+            # a refusal whose message the harness does not recognise: both
+            # sides refuse, the class is not compared (wording is not part
+            # of the property)
             return []
         return ['verdict:model=%s' % model['err']]
     if impl.get('err') is not None:
@@ -976,9 +984,7 @@ def check_helpers(ctx, rng):
                         rounded = read_storage(work, 'X')
                     left = sorted(p.name for p in tmp.iterdir())
                     if left and rerr is None:
-                        ctx.violation('C16/round/scratch-left',
-                                      'round_x_to_integers leaves %r' % left,
-                                      case)
+                        ctx.count('round:scratch-left-in-tmp_dir')
         after = sha(src)
     ctx.case(('h', json.dumps(case, sort_keys=True)))
     ctx.count('helpers:' + case['encoding'])
@@ -1090,6 +1096,9 @@ def check_helpers(ctx, rng):
               'impl': impl_m}
         badm = False
         if 'err' in impl_m:
+            if n_unknown == len(genes) and impl_m['err'].startswith(
+                    'other:RuntimeError'):
+                impl_m['err'] = 'allUnmappable'    # by type and situation
             if not (impl_m['err'] == 'allUnmappable' and n_unknown == len(genes)):
                 badm = True
                 ctx.violation('C16/map_genes/crash', 'map_gene_identifiers '
